@@ -142,12 +142,23 @@ def make(game: str, variant: str):
         return read(game)
     notes = NOTES
     svs = SVS
+    bpms = BPMS
+    if variant == "single":
+        # one row per list: one-row buffers and frames behave differently from longer ones in several places
+        notes = [(1000.0, 0, None), (2000.0, 1, 1000.0)]
+        svs = SVS[:1]
+        bpms = BPMS[:1]
     if variant == "empties":
         notes = [n for n in NOTES if n[2] is None]
         svs = []
     if game == "sm" and variant == "extras":
         variant_for_meta = "plain"
-    m = charts.make_map(game, notes, BPMS, svs if game in ("osu", "qua") else (), meta=game_extras(game, variant))
+    m = charts.make_map(game, notes, bpms, svs if game in ("osu", "qua") else (), meta=game_extras(game, variant))
+    if game == "qua" and variant in ("plain", "single") and len(m.hits):
+        # key sounds as a real .qua carries them: a list of {Sample, Volume} mappings (nested mutable state)
+        m.hits.df.at[m.hits.df.index[0], "keysounds"] = [dict(Sample=1, Volume=80)]
+        if len(m.holds):
+            m.holds.df.at[m.holds.df.index[0], "keysounds"] = [dict(Sample=2, Volume=50), dict(Sample=3, Volume=100)]
     if game == "osu" and variant != "empties":
         from reamber.osu.OsuSample import OsuSample
         from reamber.osu.lists import OsuSampleList
@@ -194,7 +205,7 @@ def read(game: str):
 
 
 def variants(game: str):
-    vs = ["plain", "empties", "gaps", "unsorted"]
+    vs = ["plain", "empties", "gaps", "unsorted", "single"]
     if game in ("osu", "qua", "sm", "bms"):
         vs.append("read")
     if game == "sm":
